@@ -815,6 +815,12 @@ func (ev *Ev) call(e *SExpr) *Val {
 	case "val":
 		v := ev.eval(args[0])
 		return mathVal(bigval(ev.st, v.X))
+	case "lastpacked":
+		// lastpacked(): the byte string the last ABI Pack* call on this path produced (ghost set by the library model)
+		if g, ok := ev.st.Ghost["lastpacked"]; ok {
+			return mathVal(g)
+		}
+		return mathVal(Fresh("lastpacked!none", SInt))
 	case "calls":
 		// calls("Name"): number of calls to a callee of that name executed so far on this path of the function under contract
 		if args[0].Kind != "str" {
